@@ -327,6 +327,13 @@ def swarm_config(rng, tier, prop):
     cfg["n_fams"] = rng.choice([1, 1, 2, 2, 3, 4])
     cfg["length"] = rng.randint(4, 40 if tier == "quick" else 60)
     cfg["n_choices"] = rng.choice([[1, 2, 3], [3, 5, 7], [5, 7, 12], [7, 12, 40], N_CHOICES])
+    cfg["long_session"] = rng.random() < 0.025     # many operations on cheap families: thresholds, evictions, growth
+    if cfg["long_session"]:
+        cfg["length"] = rng.randint(150, 320)
+        cfg["n_choices"] = [1, 2, 3, 5]
+    cfg["big_requests"] = rng.random() < 0.04      # request-length thresholds (vectorised paths, chunking)
+    if cfg["big_requests"]:
+        cfg["n_choices"] = [3, 130, 1030]
     # swarm: switch whole behaviours off per run
     for k in ("p_scribble", "p_drop", "p_churn", "p_share", "p_badnew"):
         if rng.random() < 0.35:
@@ -340,7 +347,7 @@ def swarm_config(rng, tier, prop):
         cfg["fault_rate"] = 0.0
     else:
         k = rng.randint(1, 4)
-        cfg["fault_kinds"] = sorted(rng.sample(["dep", "abort", "devnull", "nofile", "alloc"], k))
+        cfg["fault_kinds"] = sorted(rng.sample(["dep", "abort", "devnull", "nofile", "alloc", "oom"], k))
         cfg["fault_rate"] = rng.choice([1 / 20., 1 / 6.])
     return cfg
 
@@ -349,7 +356,7 @@ def place_intents(rng, ops, kinds, rate):
     """Fault intents: which operations get a fault, and an ordered preference of fault kinds; the kind actually
     injected is the first one the operation offers a site for (known from the fault-free profile).  Biased towards
     the first evaluation after a construction, where lazily initialised state is being built."""
-    cand = [k for k in kinds if k in ("dep", "abort", "devnull")]
+    cand = [k for k in kinds if k in ("dep", "abort", "devnull", "oom")]
     intents = []
     if not cand or rate <= 0:
         return intents
@@ -375,7 +382,7 @@ def place_intents(rng, ops, kinds, rate):
             elif r2 < 0.5:
                 u = 1.0 - u * u * u   # late: between the last state update and the return
             intents.append({"step": i, "kinds": order, "u": fhex(u), "mode": rng.choice(["before", "before", "after"]),
-                            "exc": rng.choice(["RuntimeError", "ValueError"])})
+                            "exc": rng.choice(["RuntimeError", "ValueError", "RuntimeError", "ValueError", "ZeroDivisionError", "FloatingPointError", "OverflowError"])})
     return intents
 
 
@@ -419,6 +426,8 @@ def make_run(seed, tier, index, prop="C06"):
     rng = random.Random(h64(seed, tier, index, prop))
     fams = tier_families(tier, prop)
     cfg = swarm_config(rng, tier, prop)
+    if cfg.get("long_session") or cfg.get("big_requests"):
+        fams = [f for f in fams if f.cost == "cheap"] or fams
     chosen = pick_families(rng, fams, cfg["n_fams"], prop)
     g = Gen(rng, fams, cfg)
     clients = list(range(cfg["n_clients"]))
@@ -567,6 +576,12 @@ def resolve_faults(spec, profile):
                     continue
                 faults.append({"step": i, "kind": "devnull"})
                 break
+            if kind == "oom":
+                n = rec.get("allocs", 0)
+                if n <= 0:
+                    continue
+                faults.append({"step": i, "kind": "oom", "k": 1 + int(u * n) if n > 1 else 1})
+                break
     return faults
 
 
@@ -713,6 +728,9 @@ def conformance(g, client, qual, rng, tier):
             g.ops.append({"op": "dump", "c": client, "sol": op["sol"], "dev": "sim", "bufsize": rng.choice([1, 16, 64, 8192])})
             yield
         elif r < 0.62:
+            # real file; sometimes twice to the same path (the second dump must overwrite, not append), sometimes over a stale file
+            g.ops.append({"op": "dump", "c": client, "sol": op["sol"], "dev": "file", "leave": True, "keep_previous": rng.random() < 0.5})
+            yield
             g.ops.append({"op": "dump", "c": client, "sol": op["sol"], "dev": "file"})
             yield
         elif r < 0.9:
